@@ -1,2 +1,193 @@
-(* C03 -- theorems land here *)
-Require Import XV.Differ XV.Spec.
+(* C03 (forward direction) -- "Diffing a document against an equal document
+   returns an empty edit script under every option combination."
+
+   Models: XV.Matcher.match_nodes (Differ.match) and XV.Differ.diff_given
+   (Differ.diff), both validated against the Python implementation by
+   differential testing; the similarity of two node texts is an ORACLE
+   (sim, sim_ltb, sim_leb, sim_is_one, zero, one, leaf_sim, combine).
+
+   C03_equal_empty: for every oracle satisfying the laws below, every option
+   record o -- any threshold F, any uniqueattrs / ignored_attrs, fast_match and
+   best_match set or not -- every well-formed document L (XV.WF.wf_forest) and
+   every document R equal to L (XV.EqualDocsBase.same_doc: same ids -- both trees
+   are numbered in pre-order, so this is without loss of generality --, same
+   child lists, tags, texts and tails, attribute lists equal up to order), with
+   the same namespace map lns on both sides:
+     * match() returns the identity matching (each document node paired with
+       itself, and nothing else), and
+     * diff() returns the EMPTY script and leaves its working tree equal to L.
+   NOTHING is excluded: the three strategies are covered.
+
+   Oracle laws (explicit hypotheses; each is true of the float oracle):
+     ratio(s, s) == 1.0;  combine(1.0, n, n) == 1.0 for n > 0;  one == 1.0;
+     0 < x and F <= x whenever x == 1.0;
+   and, used by fast_match only:  not (F <= 0), and
+     F <= combine(leaf_sim s t, 0, n) implies F <= combine(1.0, 0, n')  (n, n' > 0)
+   i.e. with no child matched a pair cannot beat a node against itself
+   (sqrt(m^2/2) <= sqrt(1/2) since m <= 1.0; 0/n = 0 whatever n).
+   The namespace hypothesis says every binding of lns is found under its own
+   prefix (true as soon as the prefixes are distinct: EqualDocs.ns_hyp_of_NoDup).
+
+   C03_formatter_empty: the 'diff' text formatter renders the empty script as
+   the empty string (by computation on the generated tables).
+
+   C03_example: the hypotheses are satisfiable and the conclusion computes, on
+     <r><a k="1" j="2">x</a><a k="1" j="2">x</a><b><a k="1" j="2">x</a></b></r>
+   (duplicate siblings, a repeated subtree) against the same document with the
+   attributes in the other order, with a nat-valued oracle (percent), for the
+   default strategy, best_match, fast_match with F = 50 and fast_match with
+   F = 80 (where only the leaves pass the LCS stage).
+   Proofs: XV.EqualDocs (EqualDocsBase, EqualDocsMatch, EqualDocsScript). *)
+From Coq Require Import List NArith ZArith Bool Arith.
+Import ListNotations.
+Require Import XV.Str XV.Forest XV.Matcher XV.Differ XV.WF XV.EqualDocsBase XV.EqualDocs.
+Require Import XV.TextFormat XV.Gen.TextTables.
+
+Theorem C03_equal_empty :
+  forall (sim : Type) (sim_ltb sim_leb : sim -> sim -> bool) (sim_is_one : sim -> bool)
+         (zero one : sim) (leaf_sim : str -> str -> sim) (combine : sim -> nat -> nat -> sim)
+         (o : mopts sim) (L R : forest) (root : id) (lns : nsmap),
+  (forall s, sim_is_one (leaf_sim s s) = true) ->
+  (forall m n, sim_is_one m = true -> 0 < n -> sim_is_one (combine m n n) = true) ->
+  sim_is_one one = true ->
+  (forall x, sim_is_one x = true -> sim_ltb zero x = true) ->
+  (forall x, sim_is_one x = true -> sim_leb (oF sim o) x = true) ->
+  (ofast sim o = true -> sim_leb (oF sim o) zero = false) ->
+  (ofast sim o = true ->
+   forall s t n x n', 0 < n -> sim_leb (oF sim o) (combine (leaf_sim s t) 0 n) = true ->
+                      sim_is_one x = true -> 0 < n' ->
+                      sim_leb (oF sim o) (combine x 0 n') = true) ->
+  wf_forest L root ->
+  same_doc L R ->
+  (forall k v, In (k, v) lns -> ns_get lns k = Some v) ->
+  exists m,
+    match_nodes sim sim_ltb sim_leb sim_is_one zero one leaf_sim combine o L R root root = Some m /\
+    (forall l r, In (l, r) m -> l = r) /\
+    (forall n, desc L root n -> In (n, n) m) /\
+    diff_given (oignored sim o) R root L root lns lns m = Some ([], L).
+Proof. exact equal_docs_empty_script. Qed.
+Print Assumptions C03_equal_empty.
+
+Theorem C03_formatter_empty : format tables [] = Ok [].
+Proof. vm_compute. reflexivity. Qed.
+Print Assumptions C03_formatter_empty.
+
+Example C03_example :
+  let L := ex_doc false in
+  let R := ex_doc true in
+  let is_one := fun x => Nat.eqb x 100 in
+  let idm := [(1, 1); (2, 2); (4, 4); (3, 3); (0, 0)] in
+  (* the hypotheses of C03_equal_empty hold for the four option sets *)
+  (forall F fast, F = 50 \/ F = 80 ->
+     (forall s, is_one (ex_leaf s s) = true) /\
+     (forall m n, is_one m = true -> 0 < n -> is_one (ex_comb m n n) = true) /\
+     is_one 100 = true /\
+     (forall x, is_one x = true -> Nat.ltb 0 x = true) /\
+     (forall x, is_one x = true -> Nat.leb (oF nat (ex_opts F fast false)) x = true) /\
+     (ofast nat (ex_opts F fast false) = true -> Nat.leb (oF nat (ex_opts F fast false)) 0 = false) /\
+     (ofast nat (ex_opts F fast false) = true ->
+      forall s t n x n', 0 < n ->
+        Nat.leb (oF nat (ex_opts F fast false)) (ex_comb (ex_leaf s t) 0 n) = true ->
+        is_one x = true -> 0 < n' ->
+        Nat.leb (oF nat (ex_opts F fast false)) (ex_comb x 0 n') = true)) /\
+  wf_forest L 0 /\ same_doc L R /\
+  (forall k v, In (k, v) ex_lns -> ns_get ex_lns k = Some v) /\
+  (* and its conclusion computes *)
+  (let run := fun F fast best =>
+     match_nodes nat Nat.ltb Nat.leb is_one 0 100 ex_leaf ex_comb (ex_opts F fast best) L R 0 0 in
+   let script := fun m => diff_given [] R 0 L 0 ex_lns ex_lns m in
+   run 50 false false = Some idm /\ run 50 false true = Some idm /\
+   run 50 true false = Some idm /\ run 80 true false = Some idm /\
+   script idm = Some ([], L)).
+Proof. exact (conj ex_laws (conj ex_wf (conj ex_same (conj ex_ns ex_computes)))). Qed.
+Print Assumptions C03_example.
+
+(* ---------------------------------------------------------------------- *)
+(* C03, converse direction -- "whenever the two documents differ in a tag,
+   attribute, text, tail, comment or child order, the edit script is non-empty."
+
+   Stated contrapositively: if the script contains nothing but namespace actions
+   (in particular if it is empty) then the two documents are equal, i.e.
+   tree_equivb -- same tags, attribute sets and values (up to the ignored
+   attributes of the options, none when ignored_attrs = []), texts, tails
+   (None = ""), comments, children in the same order -- holds of L and R.
+   Hence documents that are NOT equal in that sense get a script with at least
+   one action that is not a namespace action (C03_differ_nonempty; is_ns_action a
+   = true exactly for InsertNamespace / DeleteNamespace).
+   Hypotheses: the two oracle laws of the matcher theorem ("not (F <= 0)",
+   "0 != 1.0"), well-formed documents (XV.WF.wf_forest).
+   C03_empty_equal_every_matching: the differ half, for EVERY valid matching.
+   Proofs: XV.PipelineProofs (from DifferSound.gen_script_replay: replaying the
+   script on L yields a tree equal to R; namespace actions do not touch the tree). *)
+Require Import XV.Spec XV.DifferSound XV.Pipeline XV.PipelineProofs.
+
+Theorem C03_empty_equal :
+  forall (sim : Type) (sim_ltb sim_leb : sim -> sim -> bool) (sim_is_one : sim -> bool)
+         (zero one : sim) (leaf_sim : str -> str -> sim) (combine : sim -> nat -> nat -> sim)
+         (o : mopts sim) (L R : forest) (rootL rootR : id) (lns rns : nsmap)
+         (script : list iact) (W : forest),
+  sim_leb (oF sim o) zero = false -> sim_is_one zero = false ->
+  wf_forest L rootL -> wf_forest R rootR ->
+  diff_model sim sim_ltb sim_leb sim_is_one zero one leaf_sim combine o L R rootL rootR lns rns
+    = Some (script, W) ->
+  forallb (fun a => match a with IInsNs _ _ | IDelNs _ => true | _ => false end) script = true ->
+  tree_equivb (tree_map_attrs (node_attribs_d (oignored sim o)) (to_tree (S (fnext L)) L rootL))
+              (tree_map_attrs (node_attribs_d (oignored sim o)) (to_tree (S (fnext R)) R rootR)) = true.
+Proof.
+  intros sim sim_ltb sim_leb sim_is_one zero one leaf_sim combine o L R rootL rootR lns rns script W HF H1.
+  apply diff_model_only_ns_equiv. split; assumption.
+Qed.
+Print Assumptions C03_empty_equal.
+
+Theorem C03_differ_nonempty :
+  forall (sim : Type) (sim_ltb sim_leb : sim -> sim -> bool) (sim_is_one : sim -> bool)
+         (zero one : sim) (leaf_sim : str -> str -> sim) (combine : sim -> nat -> nat -> sim)
+         (o : mopts sim) (L R : forest) (rootL rootR : id) (lns rns : nsmap)
+         (script : list iact) (W : forest),
+  sim_leb (oF sim o) zero = false -> sim_is_one zero = false ->
+  wf_forest L rootL -> wf_forest R rootR ->
+  diff_model sim sim_ltb sim_leb sim_is_one zero one leaf_sim combine o L R rootL rootR lns rns
+    = Some (script, W) ->
+  tree_equivb (tree_map_attrs (node_attribs_d (oignored sim o)) (to_tree (S (fnext L)) L rootL))
+              (tree_map_attrs (node_attribs_d (oignored sim o)) (to_tree (S (fnext R)) R rootR)) <> true ->
+  exists a : iact, In a script /\ is_ns_action a = false.
+Proof.
+  intros sim sim_ltb sim_leb sim_is_one zero one leaf_sim combine o L R rootL rootR lns rns script W HF H1.
+  apply diff_model_differ_nonempty. split; assumption.
+Qed.
+Print Assumptions C03_differ_nonempty.
+
+Theorem C03_empty_equal_every_matching :
+  forall (ignored : list str) (L R : forest) (rootL rootR : id) (m : list (id * id)),
+  wf_forest L rootL -> wf_forest R rootR -> valid_matching L R rootL rootR m ->
+  out (gen_script ignored R rootR L rootL m) = [] ->
+  tree_equivb (tree_map_attrs (node_attribs_d ignored) (to_tree (S (fnext L)) L rootL))
+              (tree_map_attrs (node_attribs_d ignored) (to_tree (S (fnext R)) R rootR)) = true.
+Proof. exact empty_script_equiv. Qed.
+Print Assumptions C03_empty_equal_every_matching.
+
+(* Non-vacuity: <r><a k="1"/></r> against <r><a k="2"/></r> are not equal and the
+   script is [UpdateAttrib]; against itself the script is empty. *)
+Example C03_converse_example :
+  let mk := fun v => mk_forest [(0, [1])]
+              [(0, Lab (TElem [114%N]) [] None None);
+               (1, Lab (TElem [97%N]) [([107%N], [v])] None None)] 2 in
+  let leaf := fun a b : str => if str_eqb a b then 100 else 60 in
+  let comb := fun m c n : nat => if Nat.ltb 0 n && Nat.eqb c n then m else m * 70 / 100 in
+  let is_one := fun x => Nat.eqb x 100 in
+  let o := MOpts nat 50 [] false false [] in
+  Nat.leb (oF nat o) 0 = false /\ is_one 0 = false /\
+  wf_forest (mk 49%N) 0 /\ wf_forest (mk 50%N) 0 /\
+  tree_equivb (doc_tree (mk 49%N) 0) (doc_tree (mk 50%N) 0) = false /\
+  option_map fst (diff_model nat Nat.ltb Nat.leb is_one 0 100 leaf comb o (mk 49%N) (mk 50%N) 0 0 [] [])
+    = Some [IUpdAttr 1 [107%N] [50%N]] /\
+  option_map fst (diff_model nat Nat.ltb Nat.leb is_one 0 100 leaf comb o (mk 49%N) (mk 49%N) 0 0 [] [])
+    = Some [].
+Proof.
+  cbv zeta.
+  split; [reflexivity|]. split; [reflexivity|].
+  split; [apply wf_forestb_sound; vm_compute; reflexivity|].
+  split; [apply wf_forestb_sound; vm_compute; reflexivity|].
+  repeat (split; [vm_compute; reflexivity|]). vm_compute. reflexivity.
+Qed.
+Print Assumptions C03_converse_example.
